@@ -1686,6 +1686,18 @@ def m_int_from_str(ex, m, args, callee):
     return ok(v)
 
 
+@model(r'^<impl str>::parse$')
+def m_str_parse(ex, m, args, callee):
+    tm = re.search(r'::parse::<([A-Za-z0-9_:]+)>$', callee)
+    ty = tm.group(1).split('::')[-1] if tm else None
+    if ty in INT_RANGES and ty not in ('char', 'bool'):
+        mm = re.match(r'^<(i8|i16|i32|i64|i128|isize|u8|u16|u32|u64|u128|usize) as FromStr>::from_str$', '<%s as FromStr>::from_str' % ty)
+        return m_int_from_str(ex, mm, args, callee)
+    if ty == 'f64':
+        return m_f64_from_str(ex, m, args, callee)
+    raise Unmodelled('str::parse::<%s>' % ty)
+
+
 def string_chars(v):
     """code points (concrete ints or z3 Ints) of a string value: str, SymStr, or the pieces of a symbolic format!"""
     v = deref_all(v)
@@ -2630,6 +2642,17 @@ def m_iter_consume(ex, m, args, callee):
             b = ex.call_value(args[1], [Ref(Cell(r.fields[0], 'tmp'))])
             if ex.branch(b, 'find'):
                 return r
+    if k == 'position':
+        it = args[0]
+        idx = 0
+        while True:
+            r = iter_next(ex, it)
+            if r.variant == 0:
+                return r
+            b = ex.call_value(args[1], [r.fields[0]])
+            if ex.branch(b, 'position'):
+                return some(ex, idx)
+            idx += 1
     if k == 'nth':
         n = ex.concretize_int(args[1], 'nth')
         r = none(ex)
